@@ -164,7 +164,7 @@ def _(c):
             out = c.call(sha.SHAKE128 if sec == 128 else sha.SHAKE256, M, d)
             exp = K.sponge_bits(1600, 1600 - 2 * sec, bits + [1, 1, 1, 1], d, True)
             c.ensure('output d=%d' % d, val.eq(out, K.bits_to_bytes(exp)))
-    c.raises('sha3-bad-size', ValueError, sha.SHA3, 200) if n == 0 else None
+    c.raises('sha3-bad-size', Exception, sha.SHA3, 200) if n == 0 else None
 
 @obligation(P, 'crysp.keccak.Keccak.duplex/bounded', cls='B', opaque=K.NAMES_F, bound='sequences of 1..3 duplex calls, inputs of 0..r-2 bits, widths 200 and 1600', timeout=200,
             cases={'b': [200, 1600], 'seq': ['0', '5', '8,0', '3,9,1', '16,16']}, funcs=['crysp.keccak.Keccak.duplex'])
